@@ -823,6 +823,9 @@ def _gp_hyp(
 
     # Get high posterior density dataset.
     hpd_X, hpd_y, _, _ = get_hpd(X, y, options["hpd_frac"])
+    if hpd_X.shape[0] == 0:
+        # tiny training set (the fraction rounds to no point at all): use all of it
+        hpd_X, hpd_y, _, _ = get_hpd(X, y, 1.0)
     D = hpd_X.shape[1]
     # s2 = None
 
